@@ -445,7 +445,7 @@ def readable_schedule(r):
     for i, (kind, steps, order) in enumerate(r["decisions"]):
         if steps:
             out.append("%d@%s: %s" % (i, kind, " ".join("%s%s%s" % (s[0], (" %d" % s[1]) if s[1] else "",
-                                                               (" " + s[2]) if len(s) > 2 and s[2] else "")
+                                                               (" " + str(s[2])) if len(s) > 2 and s[2] not in ("", None) else "")
                                                     for s in steps)))
     return out
 
